@@ -195,6 +195,40 @@ func TestC07(t *testing.T) {
 		if gerr != nil || (c07Enc(want) != c07Enc(got) && !(want == nil && len(got) == 0)) {
 			note("EXISTS correlated", fmt.Sprintf("d=%s\n   got %s (%v)\n   want %s", c07Enc(d), c07Enc(got), gerr, c07Enc(want)))
 		}
+		// EXISTS with a column of the nested rows that has the name of a column of the outer row (id): the nested one is meant;
+		// the nested rows are the k rows renamed v -> id by a derived table... they are given directly: k2 = [{id: v}]
+		total++
+		{
+			d2 := c07Clone(d).(map[string]any)
+			for _, r := range d2["t"].([]any) {
+				rm := r.(map[string]any)
+				var k2 []any
+				for _, e := range rm["k"].([]any) {
+					k2 = append(k2, map[string]any{"id": e.(map[string]any)["v"]})
+				}
+				if k2 == nil {
+					k2 = []any{}
+				}
+				rm["k2"] = k2
+			}
+			got, gerr = c07Run(c07Clone(d2).(map[string]any), "SELECT id FROM t WHERE EXISTS (SELECT id FROM k2 WHERE id = 2)")
+			want = nil
+			for _, r := range d2["t"].([]any) {
+				rm := r.(map[string]any)
+				ex := false
+				for _, e := range rm["k2"].([]any) {
+					if e.(map[string]any)["id"] == 2.0 {
+						ex = true
+					}
+				}
+				if ex {
+					want = append(want, map[string]any{"id": rm["id"]})
+				}
+			}
+			if gerr != nil || (c07Enc(want) != c07Enc(got) && !(want == nil && len(got) == 0)) {
+				note("EXISTS with a shadowed column", fmt.Sprintf("d=%s\n   got %s (%v)\n   want %s", c07Enc(d2), c07Enc(got), gerr, c07Enc(want)))
+			}
+		}
 		// root navigation
 		total++
 		got, gerr = c07Run(c07Clone(d).(map[string]any), "SELECT id, (SELECT m FROM `<-r` WHERE m > 1) AS s FROM t")
@@ -208,6 +242,6 @@ func TestC07(t *testing.T) {
 		}
 	}
 	r.Cases = total
-	r.Bound = fmt.Sprintf("%d tables of 0..3 rows over a in {1,2,3}, b in {x,y}; 7 inner queries (projection, filter, order, arithmetic, group/aggregate, limit, distinct) x 6 outer queries (star, filter, group/count, two-key order, window, sum) composed as CTE, derived table and two-stage CTE chain, plus a CTE read twice (UNION ALL) and through a slice selector; 25 documents with nested arrays x 4 subqueries in the select list, IN, correlated EXISTS and `<-` navigation, each compared with the standalone run on the row / the document", len(tables))
+	r.Bound = fmt.Sprintf("%d tables of 0..3 rows over a in {1,2,3}, b in {x,y}; 7 inner queries (projection, filter, order, arithmetic, group/aggregate, limit, distinct) x 6 outer queries (star, filter, group/count, two-key order, window, sum) composed as CTE, derived table and two-stage CTE chain, plus a CTE read twice (UNION ALL) and through a slice selector; 25 documents with nested arrays x 4 subqueries in the select list, IN, correlated EXISTS, EXISTS over nested rows with a column named like an outer one, and `<-` navigation, each compared with the standalone run on the row / the document", len(tables))
 	report(t, r)
 }
